@@ -217,7 +217,7 @@ func TestCheck(t *testing.T) {
 	rep.Require("steplimit_errors_recognised", 10)
 	rep.Require("fullscan_checker_calls", 50)
 
-	n := int64(cfg.Pick(300, 5000)) // scripts per shard; each runs under both checker configurations
+	n := int64(cfg.Pick(1200, 5000)) // scripts per shard; each runs under both checker configurations
 	rep.Cases(n, func(idx int64, rng *mon.Rand) {
 		if hangsSeen >= 8 {
 			// every hang leaves goroutines behind and costs several quiescence proofs; the
